@@ -16,6 +16,10 @@ SPEC = os.path.join(ROOT, "spec")
 HARNESS = os.path.join(ROOT, "harness")
 OUT = os.path.join(ROOT, "out")
 EVID = os.path.join(ROOT, "evidence")
+if REPO != "/repo":
+    # development aid (trying a seeded change on a scratch copy): nothing it produces may be mistaken for evidence
+    OUT = os.path.join(ROOT, "out", "alt-" + os.path.basename(REPO.rstrip("/")))
+    EVID = os.path.join(OUT, "evidence")
 JAVA_CP = "/opt/veriftools/tla/tla2tools.jar:/opt/veriftools/tla/CommunityModules-deps.jar"
 NCPU = os.cpu_count() or 4
 
@@ -74,12 +78,14 @@ def run_families(binary, fams, seed, outdir, timeout=1500):
     for f in glob.glob(os.path.join(outdir, "*.ndjson")):
         os.remove(f)
     jobs = []
-    for fam, runs, steps in fams:
+    for ent in fams:
+        fam, runs, steps = ent[0], ent[1], ent[2]
+        base = ent[3] if len(ent) > 3 else 0          # first run number (the pool of directed families starts elsewhere per property)
         per = max(1, (runs + NCPU - 1) // NCPU)
         first = 0
         while first < runs:
             n = min(per, runs - first)
-            jobs.append((fam, first, n, steps))
+            jobs.append((fam, base + first, n, steps))
             first += n
 
     def one(job):
